@@ -127,15 +127,15 @@ META.update({
 })
 
 META.update({
-    "C15": dict(technique="Lean 4 proof (renaming function only) + differential run against Myokit's own evaluator",
+    "C15": dict(technique="Lean 4 proof (renaming function only) + differential run against Myokit's own evaluator (imported models and .ode-text exports)",
                 text="Partial (level 'other'). Theorems gname_injective / imported_nodup: the names under which Myokit variables are imported (unique name, '_' appended for sympy's public "
                      "names) are pairwise distinct. Everything else is decided by the differential run: generated .mmt models (nested variables with unique and repeated local names, clashes "
                      "with sympy names, if / piecewise, all Myokit functions) and the repository's .mmt / CellML files are imported, saved, reloaded, and the generated rhs is compared with "
-                     "Model.evaluate_derivatives at the initial and perturbed states; states / constants / values / export back to Myokit are compared.",
+                     "Model.evaluate_derivatives at the initial and perturbed states; states / constants / values / export back to Myokit are compared; models written in .ode text with declared units are exported and compared with Myokit's own reading of the unit texts.",
                 note=TB + "Myokit's parsers, its sympy writer / reader and evaluate_derivatives are an oracle (A7), not modelled; the three xreplace passes over sympy expressions are not modelled in Lean."),
-    "C17": dict(technique="Lean 4 proof (lexer model: blanks, tabs and comment text produce no tokens) + differential inert-edit runs",
-                text="Partial. Theorems lex_skip_blank, lex_skip_blank_after_operand, lex_comment about the lexer model that mirrors lark's contextual lexing of ode.lark (pinned grammar rules, "
-                     "ignore list, caught exception classes); executable checks of the model on CRLF / continuation / comment variants. 18 kinds of edit the property calls inert are applied "
+    "C17": dict(technique="Lean 4 proof (lexer model: blanks, tabs and comment text produce no tokens; CRLF = LF, blank lines absorbed, continuation lines) + differential inert-edit runs",
+                text="Partial. Theorems lex_skip_blank, inline_run, lex_comment, lex_crlf (a CRLF line end is lexed exactly as LF in every context), lex_blank_line / lex_blank_line_crlf (a blank line is absorbed), lex_continuation_indent / lex_continuation_break (after a token that cannot end an operand a line break with any indentation is white space) about the lexer model that mirrors lark's contextual lexing of ode.lark (pinned grammar rules, "
+                     "ignore list, caught exception classes); executable checks of the model on CRLF / continuation / comment variants. 20 kinds of edit the property calls inert (incl. the eight characters str.splitlines treats as line ends inside comments, and a form feed between operands) are applied "
                      "to generated models with comment texts from a pool of punctuation, arithmetic, unit-like and unicode strings: load (under a time limit), component membership, slot layout "
                      "and generated bytes must not change; the Lean loader's verdict on every pair is compared with the implementation's.",
                 note=TB + "pint is assumption A6. Three grammar-level behaviours are recorded as known findings; a hang of pint on texts like '2**3**4**5' was observed in the design phase and is not exercised."),
